@@ -7,6 +7,7 @@ import (
 	"encoding/binary"
 	"encoding/hex"
 	"fmt"
+	"os"
 	"sync"
 	"time"
 
@@ -42,7 +43,8 @@ func expectedFrame(p interface{}, seq int32) []byte {
 
 // genSendable draws a PDU of a random registered type whose frame stays below limit octets.
 func genSendable(r *Rng, ts []pduType, responsable bool, limit int) interface{} {
-	for {
+	for tries := 0; ; tries++ {
+		genCap("genSendable", tries, fmt.Sprintf("responsable=%v limit=%d", responsable, limit))
 		t := ts[r.Intn(len(ts))]
 		p := genPDU(r, t, modeDomain)
 		if _, ok := p.(pdu.Responsable); responsable && !ok {
@@ -173,10 +175,82 @@ func corrC14(r *Run) {
 		i := i
 		confirmed(r, func() { c14Forced(r, ts, i) })
 	}
-	nFree := r.N(12, 150)
+	// the refusal clause for EVERY registered PDU type: sequence number 0 / -1 / MinInt32 x command_status zero / non-zero,
+	// through Send and (request types) through Submit; on every run, forced here and free-running in round 0 below
+	for ti := range ts {
+		ti := ti
+		confirmed(r, func() { c14Refusal(r, ts, ti) })
+	}
+	nFree := r.N(12+c14SweepRounds, 150)
 	for i := 0; i < nFree; i++ {
 		c14Free(r, ts, i)
 	}
+}
+
+var c14BadSeqs = []int32{0, -1, -0x80000000}
+
+const c14SweepRounds = 6
+
+// c14Refusal: one registered type; goroutine 1 sits in the Write of a good frame while goroutine 0 issues the six
+// (sequence, status) combinations through Send and, for a request type, through Submit (NextSequence hands the number out),
+// then a good frame of its own.  The wire shows the two good frames and nothing else; every other call returned an error.
+func c14Refusal(r *Run, ts []pduType, ti int) {
+	rng := r.Rng
+	t := ts[ti]
+	w := NewWorld(true)
+	defer w.Shutdown()
+	if ti%2 == 1 {
+		w.C.WriteTimeout = time.Hour
+	}
+	w.StartWatch()
+	mk := func(seq int32, status uint32) interface{} {
+		p := genPDU(rng, t, modeDomain)
+		pduHeader(p).CommandStatus = pdu.CommandStatus(status)
+		pdu.WriteSequence(p, seq)
+		return p
+	}
+	base := int32(100 + rng.Intn(1000))
+	other := w.Go(1, CallSpec{Kind: "send", Seq: base, P: mk(base, 0)})
+	var specs []CallSpec
+	for _, q := range c14BadSeqs {
+		for _, st := range []uint32{0, uint32(rng.Pick([]int{1, 2, 3, 8, 0x58, 0xFF, 0x400}))} {
+			specs = append(specs, CallSpec{Kind: "send", Seq: q, P: mk(q, st)})
+			if _, ok := mk(1, 0).(pdu.Responsable); ok {
+				specs = append(specs, CallSpec{Kind: "submit", Seq: q, P: mk(1, st)})
+			}
+		}
+	}
+	for i := len(specs) - 1; i > 0; i-- {
+		j := rng.Intn(i + 1)
+		specs[i], specs[j] = specs[j], specs[i]
+	}
+	specs = append(specs, CallSpec{Kind: "send", Seq: base + 1, P: mk(base+1, 0)})
+	all := append(other, w.Go(0, specs...)...)
+	for again := true; again && w.Stuck == ""; {
+		again = false
+		for _, c := range all {
+			if w.Held(c) {
+				w.Release(c)
+				again = true
+			}
+		}
+	}
+	input := "sched " + w.Script()
+	r.Count(input, true, "refusal-sweep/"+t.Name)
+	if w.Stuck != "" {
+		r.Fail("sched/not-quiescent", "the connection did not come to rest", input, w.Stuck[:min(len(w.Stuck), 1500)], "every forced event is followed by a state in which all goroutines wait")
+		return
+	}
+	for _, p := range w.Panics() {
+		r.Fail("panic", "a library goroutine panicked", input, p, "no panic")
+	}
+	c14Check(r, input, w.T.Writes(), all, "forced")
+	for _, c := range all {
+		if !w.Returned(c) {
+			r.Fail("sched/call-blocked", "a call did not return although every Write was released", input, fmt.Sprintf("%s seq=%d", c.Kind, c.Seq), "every call returns")
+		}
+	}
+	r.Case(fmt.Sprintf("refusal#%d %s %.160s", ti, t.Name, input), w.CaseExpr(connVariant))
 }
 
 func c14Forced(r *Run, ts []pduType, idx int) {
@@ -328,11 +402,37 @@ func c14Free(r *Run, ts []pduType, idx int) {
 	var wg sync.WaitGroup
 	type prog struct{ calls []*Call }
 	var progs []prog
-	for g := 0; g < ng; g++ {
+	if idx < c14SweepRounds {
+		// the first rounds: the refusal sweep, free-running (a sixth of the registered types per round: the model's cost grows
+		// faster than the number of calls of one world): type x {0, -1, MinInt32} x {status 0, non-zero}, good frames in between
+		ng = 4
+		progs = make([]prog, ng)
+		add := func(g int, p interface{}, s int32) {
+			pdu.WriteSequence(p, s)
+			c := &Call{ID: len(all), G: g, Kind: "send", Seq: s, P: p}
+			all = append(all, c)
+			progs[g].calls = append(progs[g].calls, c)
+		}
+		for ti, t := range ts {
+			if ti%c14SweepRounds != idx {
+				continue
+			}
+			for k, q := range c14BadSeqs {
+				for _, st := range []uint32{0, uint32(1 + rng.Intn(0x400))} {
+					p := genPDU(rng, t, modeDomain)
+					pduHeader(p).CommandStatus = pdu.CommandStatus(st)
+					add((ti+k)%ng, p, q)
+				}
+			}
+			seq++
+			add(ti%ng, genPDU(rng, t, modeDomain), seq)
+		}
+	}
+	for g := 0; g < ng && idx >= c14SweepRounds; g++ {
 		var pr prog
 		for j, n := 0, 2+rng.Intn(6); j < n; j++ {
 			p := genSendable(rng, ts, false, 3000)
-			if rng.Intn(60) == 0 || (idx == 0 && g == 0 && j == 1) {
+			if rng.Intn(60) == 0 || (idx == c14SweepRounds && g == 0 && j == 1) {
 				p = genBigPDU(rng)
 			}
 			if bare := rng.Intn(6); bare == 0 || idx%3 == 1 {
@@ -446,6 +546,7 @@ func freeCase(all []*Call, writes []*WriteRec) string {
 			}
 		}
 		if c == nil {
+			fmt.Fprintf(os.Stderr, "freeCase: write #%d seq=%d id=%#x len=%d matches no call\n", wr.Idx, wr.Seq, wr.ID, len(wr.Data))
 			return "false"
 		}
 		var evs []string
